@@ -29,11 +29,17 @@ type RefNameResolver func(*T, ComponentRef) string
 // This is an injective mapping over a "reasonable" amount of the possible openapi
 // spec domain space but is not perfect. There might be edge cases.
 func DefaultRefNameResolver(doc *T, ref ComponentRef) string {
-	if ref.RefString() == "" || ref.RefPath() == nil {
+	if ref.RefString() == "" {
 		panic("unable to resolve reference to name")
 	}
 
 	name := ref.RefPath()
+	if name == nil {
+		// a reference the loader resolved without recording a location (e.g. "#"): name it after its own text
+		if name, _ = url.Parse(ref.RefString()); name == nil {
+			name = &url.URL{Fragment: ref.RefString()}
+		}
+	}
 
 	// If refering to a component in the root spec, no need to internalize just use
 	// the existing component.
